@@ -202,7 +202,13 @@ impl<'a> PGen<'a> {
             }
             A::R => self.expr(T::Rec, d),
             A::F => self.expr(T::Fun, d),
-            A::FS => match self.rng.below(3) {
+            A::FS => match self.rng.below(7) {
+                // key functions that (wrongly) return something other than a string: a list, a
+                // record, a function, a number
+                3 => lam(&["v"], E::List(vec![id("v")])),
+                4 => lam(&["v"], E::Rec(vec![RK::Static("k".into(), id("v"))])),
+                5 => lam(&["v"], lam(&["w"], id("v"))),
+                6 => lam(&["v"], bin("%", id("v"), num(2))),
                 0 => id("to_string"),
                 1 => lam(&["v"], call(id("typeof"), vec![id("v")])),
                 _ => lam(&["v"], cond(bin(".==", call(id("typeof"), vec![id("v")]), st("number")), st("num"), st("other"))),
